@@ -853,6 +853,7 @@ fn tcp_random(ctx: &mut Ctx) {
             if sig.mss.is_none() { '*' } else { 'c' },
             if sig.wscale.is_none() { '*' } else { 'c' },
         );
+        let mut one_sig_collection = None;
         for inst in siggen::tcp_instances(&sig, &mut r, 2) {
             // L1: generator and reference model must agree that this is an instance
             let fields = ref_tcp(&inst, &sig);
@@ -863,6 +864,16 @@ fn tcp_random(ctx: &mut Ctx) {
             let Some(d) = judge_tcp(ctx, "L1/instance", &inst, &sig) else { continue };
             let q = sig.get_quality_score(0);
             ctx.judge(q == 1.0, &[], "quality of distance 0 is not 1.0", || json!({"quality": q}));
+            // the same law at the point where an analyzer observes it: in a database that holds
+            // just this signature the lookup must accept the instance with quality 1.0
+            if d == Some(0) {
+                let coll = one_sig_collection.get_or_insert_with(|| huginn_net_db::db::FingerprintCollection::new(vec![(siggen::gen_label(&mut r, 0), vec![sig.clone()])]));
+                let got = rt::guard(|| huginn_net_db::db_matching_trait::FingerprintDb::find_best_match(&*coll, &inst).map(|(_, s, q)| (s == &sig, q)));
+                ctx.judge(got == Ok(Some((true, 1.0))), &[], "an instance is not matched (quality 1.0) by a database holding only its signature", || {
+                    json!({"signature": siggen::tcp_sig_text(&sig), "instance": siggen::tcp_obs_text(&inst), "lookup": format!("{got:?}")})
+                });
+                ctx.bucket(&format!("L1/tcp-lookup/{sig_shape}/obs-v{:?}-p{:?}", inst.version, inst.pclass));
+            }
             ctx.bucket(&format!("L1/tcp/{sig_shape}"));
             if ctx.want_sample() {
                 ctx.sample(json!({"law": "L1", "signature": siggen::tcp_sig_text(&sig), "instance": siggen::tcp_obs_text(&inst), "distance": format!("{d:?}")}));
@@ -1016,6 +1027,20 @@ fn expsw_cases(ctx: &mut Ctx) {
 /// required headers given another value, `ext` foreign headers appended at the end.
 fn edited_instance(sig: &[Header], mask: u64, rem: usize, chg: usize, ext: usize, r: &mut Rng) -> Option<Vec<Header>> {
     let mut obs = siggen::header_list_instance(sig, mask);
+    // an optional header that the peer sends counts as present whatever value it carries (rule 3
+    // of the crate's documented comparison: a differing value is an error only for required
+    // headers): half of the instances give some of the optional headers they contain an own value
+    if mask >> 63 == 1 {
+        let optional: Vec<&str> = sig.iter().filter(|h| h.optional).map(|h| h.name.as_str()).collect();
+        for (i, h) in obs.iter_mut().enumerate() {
+            if optional.contains(&h.name.as_str()) && (mask >> (32 + i % 30)) & 1 == 1 {
+                h.value = match &h.value {
+                    None => Some("own".into()),
+                    Some(v) => Some(format!("{v}'")),
+                };
+            }
+        }
+    }
     let req_names: Vec<String> = sig.iter().filter(|h| !h.optional).map(|h| h.name.clone()).collect();
     if rem + chg > req_names.len() {
         return None;
@@ -1223,7 +1248,22 @@ fn http_laws_for(ctx: &mut Ctx, sig: &http::Signature, r: &mut Rng, origin: &str
     }
     for inst in siggen::http_instances(sig, r, per_filling) {
         // L1 (the software string embeds the expected substring: see the open expsw finding)
-        judge_http(ctx, "L1/instance", &inst, sig, exact(0), exact(0));
+        let d_inst = judge_http(ctx, "L1/instance", &inst, sig, exact(0), exact(0));
+        if d_inst == Some(Some(0)) {
+            // at the lookup: a request / response database holding just this signature
+            let req = inst.req();
+            let coll = huginn_net_db::db::FingerprintCollection::new(vec![(siggen::gen_label(r, 0), vec![sig.clone()])]);
+            let got = rt::guard(|| huginn_net_db::db_matching_trait::FingerprintDb::find_best_match(&coll, &req).map(|(_, s, q)| (s == sig, q)));
+            ctx.judge(got == Ok(Some((true, 1.0))), &[], "an instance is not matched (quality 1.0) by a database holding only its signature", || {
+                json!({"signature": siggen::http_sig_text(sig), "instance": inst.text(), "lookup": format!("{got:?}"), "table": "http request"})
+            });
+            let resp = inst.resp();
+            let coll = huginn_net_db::db::FingerprintCollection::new(vec![(siggen::gen_label(r, 0), vec![sig.clone()])]);
+            let got = rt::guard(|| huginn_net_db::db_matching_trait::FingerprintDb::find_best_match(&coll, &resp).map(|(_, s, q)| (s == sig, q)));
+            ctx.judge(got == Ok(Some((true, 1.0))), &[], "an instance is not matched (quality 1.0) by a database holding only its signature", || {
+                json!({"signature": siggen::http_sig_text(sig), "instance": inst.text(), "lookup": format!("{got:?}"), "table": "http response"})
+            });
+        }
         let q = DatabaseSignature::<HttpRequestObservation>::get_quality_score(sig, 0);
         ctx.judge(q == 1.0, &[], "quality of distance 0 is not 1.0", || json!({"quality": q}));
         ctx.bucket(&format!(
